@@ -50,12 +50,19 @@ def sortedList : List (List Nat) → Bool
 def rangeSorted (names : List (List Nat)) (lo hi : Nat) : Bool :=
   hi ≤ names.length && sortedList ((names.drop lo).take (hi - lo))
 
-/-- the span of letter `p` is usable by the binary search -/
-def spanOk (T : NameTables) (names : List (List Nat)) (p : Nat) : Bool :=
-  let sp := T.spans.getD p (0, 0)
-  sp.1 != 0 && sp.1 ≤ sp.2 && rangeSorted names sp.1 sp.2
+/-- printed name at each search position of `find_instruction` (positions are ids unless there is a sorted id table) -/
+def posNames (T : NameTables) (names : List (List Nat)) : List (List Nat) :=
+  if T.sortedIds = [] then names else T.sortedIds.map fun id => names.getD id []
 
-/-- id `id` is reachable through the span of its first letter -/
+/-- every entry of the sorted id table is an instruction id -/
+def sortedIdsOk (T : NameTables) : Bool := T.sortedIds.all (· < T.count)
+
+/-- the span of letter `p` is usable by the binary search (`pn` = the names by search position, `posNames T names`) -/
+def spanOk (T : NameTables) (pn : List (List Nat)) (p : Nat) : Bool :=
+  let sp := T.spans.getD p (0, 0)
+  sp.1 != 0 && sp.1 ≤ sp.2 && rangeSorted pn sp.1 sp.2
+
+/-- search position `id` of the name list `names` (= `posNames`) lies in the span of its first letter -/
 def idInSpan (T : NameTables) (names : List (List Nat)) (id : Nat) : Bool :=
   match names.getD id [] with
   | [] => false
@@ -85,7 +92,13 @@ def nameInSpan (T : NameTables) (n : List Nat) (id : Nat) : Bool :=
 def allIdsInSpan (T : NameTables) (names : List (List Nat)) : Bool :=
   names.zipIdx.all fun (n, id) => id == 0 || nameInSpan T n id
 
-def allSpansOk (T : NameTables) (names : List (List Nat)) : Bool :=
-  (List.range 26).all fun p => (T.spans.getD p (0, 0)).1 == 0 || spanOk T names p
+/-- with a sorted id table: the printed name of every id occurs at a search position (`posOfId[id]`, supplied by the
+    translator) inside the span of its letter -/
+def allNamesIndexed (T : NameTables) (pn names : List (List Nat)) (posOfId : List Nat) : Bool :=
+  posOfId.length == names.length &&
+  (names.zip posOfId).zipIdx.all fun ((n, p), id) => id == 0 || (nameInSpan T n p && pn.getD p [] == n)
+
+def allSpansOk (T : NameTables) (pn : List (List Nat)) : Bool :=
+  (List.range 26).all fun p => (T.spans.getD p (0, 0)).1 == 0 || spanOk T pn p
 
 end AsmjitVerif.InstName
